@@ -382,6 +382,10 @@ class Skel:
 
 def c05(tier, rng):
     cases = []
+    for v_ in TRUTH_VALUES:
+        cases.append(prog_case(PROBE_PRE + f'{VAR} flag = {v_};\n{IF} (flag) {P} "then"; {ELSE} {P} "else";\n{VAR} n = 0;\n{WHILE} (flag) {{ n = n + 1; {IF} (n == 3) {{ flag = nil; }} }}\n{P} n;\n'
+                               f'flag = {v_};\n{FOR} (n = 0; flag; n = n + 1) {{ {IF} (n == 2) {{ flag = 0; }} }}\n{P} n;\n{VAR} line = {N["input"]}();\n{IF} (line) {P} "line-then"; {ELSE} {P} "line-else";\n',
+                               'condition-kinds', stdin=(v_.strip('"') + '\n').encode() if v_.startswith('"') else b'x\n'))
     n = 12000 if tier == 'quick' else 250000
     for i in range(n):
         sk = Skel(rng.fork(i))
@@ -750,11 +754,25 @@ ARR_ERR = ['{P} x[3];', '{P} x[0 - 1];', 'x[0.5] = 1;', '{P} x["1"];', '{P} x["a
            '{P} x[1.0000000001];', '{P} x[0.9999999999];', 'x[(0.1 + 0.2) * 10 - 2] = 99;', '{P} x[0 - 0.0000000001];', 'z = {RM}(x, 0.9999999999);', '{P} x[2.0000000000000004];',
            '{P} x[1.0000000000000002];', 'x[0.99999999999999989] = 5;', '{P} x["1.0000000001"];']
 
+C11_VALUES = ['"ন\u09df"', '"ম\u09c7\u09beট"', '"cafe\u0301"', '"\u212b"', '"50%"', '"%d"', '" pad "', '"a\\b"', '"\u09e7\u09e8"', '"12"', '12', '0.1', '(-0)', '1000000', 'nil', TRUE, '[]', '[1]', '({k: 1})', 'keep']
+
+def c11_identity_cases():
+    """what goes into an array comes out of it unchanged — through every built-in and operation that moves elements"""
+    out = []
+    pre = f'{FUN} keep() {{ {RET} 1; }}\n{FUN} same(a, b) {{ {RET} a == b && (("" + a) == ("" + b) || a == keep || a == nil || a == {TRUE}); }}\n'
+    for v_ in C11_VALUES:
+        body = (f'{VAR} v = {v_};\n{VAR} a = {N["append"]}([], v);\n{P} same(a[0], v);\n{VAR} b = {N["append"]}([0, v], v, 1);\n{P} same(b[1], v) && same(b[2], v);\n{VAR} c = {N["remove"]}(b, 0);\n{P} same(c[0], v);\n'
+                f'{VAR} d = [v, [v]];\n{P} same(d[0], v) && same(d[1][0], v);\nd[0] = v;\n{P} same(d[0], v);\n{VAR} e = [0];\ne[0] = v;\n{P} same(e[0], v);\n{P} {N["len"]}({N["append"]}(a, v, v));\n')
+        if v_.startswith('"'):
+            body += f'{P} a[0] == {v_};\n{P} {N["remove"]}([{v_}, 1], 1)[0] == {v_};\n{P} {N["append"]}([{v_}], 2)[0] == {v_};\n'
+        out.append(prog_case(pre + body, 'element-identity'))
+    return out
+
 def c11(tier, rng):
     sub = lambda s_: s_.replace('{AP}', N['append']).replace('{RM}', N['remove']).replace('{LEN}', N['len']).replace('{P}', P).replace('{TRUE}', TRUE)
     ops = [sub(o) for o in ARR_OPS]
     errs = [sub(o) for o in ARR_ERR if '1e' not in o]
-    cases = []
+    cases = c11_identity_cases()
     L = 3 if tier == 'quick' else 4
     for n in range(1, L + 1):
         for seq in itertools.product(ops, repeat=n):
@@ -907,10 +925,11 @@ def c13(tier, rng):
     cli += long_loop_cases()
     # dense printing for longer than a second: every run writes the same bytes (a background flusher, a timer, a buffer
     # shared with another goroutine show up as truncated or reordered output in some run)
-    dense = f'{VAR} i = 0;\n{WHILE} (i < 400000) {{ i = i + 1; {P} i; }}\n{P} "end";\n'
+    dense = f'{VAR} i = 0;\n{WHILE} (i < 1200000) {{ i = i + 1; {P} i; }}\n{P} "end";\n'
+    dense_out = ''.join(go_v(j) + '\n' for j in range(1, 1200001)) + 'end\n'
     for k in range(3):
         cli.append(CliCase('impl-only-dense-output', ['p.bn'], {'p.bn': dense.encode()}, b'', 'p.bn',
-                           note={'out': ''.join(go_v(j) + '\n' for j in range(1, 400001)) + 'end\n', 'err': '', 'status': 0}))
+                           note={'out': dense_out, 'err': '', 'status': 0}))
     return {'cases': cases, 'cli': cli, 'rule': rule + ' Three loops of 2.5 to 6 million iterations through the executable (implementation alone: the prescribed output).', 'exhaustive': False,
             'oracles': [oracle_repeat_equal], 'cli_oracles': [cli_oracle_repeat, cli_oracle_expect], 'cli_timeout': 90}
 
@@ -1088,6 +1107,7 @@ def c15(tier, rng):
             continue
         q = '"' + s_ + '"'
         cases.append(prog_case(f'{P} {q};\n{P} [{q}, {q}];\n{P} {{k: {q}}};\n{P} "" + {q};\n{P} {q} + 1;\n{P} [[{q}]];\n', 'string', note=s_))
+        cases.append(prog_case(f'{P} 50 + {q};\n{P} 12.5 + {q} + 1;\n{P} [0 + {q}];\n{P} (1 + {q}) == ("1" + {q});\n', 'number-then-string', note=s_))
     cases.append(prog_case(f'{P} nil;\n{P} {TRUE};\n{P} {FALSE};\n{P} [nil, {TRUE}, {FALSE}, [], {{}}];\n{P} {{b: nil, aa: [1, "x", {{c: 2}}]}};\n{FUN} fn() {{}}\n{P} fn;\n{P} [fn, {N["len"]}, {N["clock"]}];\n{P} {N["input"]};\n', 'constants'))
     cases.append(prog_case(f'{P} 1;{P} 2;\n{P} "a\nb";\n', 'newline-per-print'))
     for blk in ([1024, 4096, 8192] if tier == 'quick' else [256, 512, 1024, 2048, 4096, 8192, 16384, 65536]):
@@ -1547,7 +1567,9 @@ def c18(tier, rng):
     # the re-execution programs (closures that escape loops, recursion through loops, factories, …) as further bases
     from .camp_reexec import reexec_programs
     rxp = [src for _, src in reexec_programs('quick')]
-    bases += rxp if tier == 'thorough' else rxp[::3]
+    from .camp_reexec import extra_programs
+    nx = len(extra_programs())
+    bases += rxp if tier == 'thorough' else rxp[:nx] + rxp[nx::3]
     lexed = lexemes_of(bases)
     cases = []
     backs = {}
@@ -1633,6 +1655,12 @@ def oracle_c18(cases):
             if c is ref:
                 continue
             b_ = norm_out(c.impl, c.note)
+            if a != b_ and c.label in ('rename', 'combined') and isinstance(a, tuple) and isinstance(b_, tuple):
+                # "renamed names … in printed function values may differ": printing NFC-normalises them, so two new names
+                # that are canonically equivalent cannot be told apart in the output — compare with those names masked
+                mask = lambda t: (_re.sub(r'<function [^>\n]*>', '<function>', t[0]), t[1], t[2])
+                if mask(a) == mask(b_):
+                    continue
             if a != b_:
                 bad.append((c, f'the {c.label} variant behaves differently from the base program'))
                 break
